@@ -12,14 +12,14 @@ func init() {
 				"jpeg":    "n in 1..3 chunks (thorough 4), payload of chunk i = i+1 symbolic bytes, seq in [0,n+1], total in [n-1,n+1] (n=3: one common symbolic total), SOF at every position, with/without COM segments",
 				"webp":    "ICCP sizes {0,1,7,4097} (thorough adds 4095,4096), flags byte symbolic",
 				"png":     "(name length, compressed length) in {(1,8),(2,5),(79,8),(1,4060)} (thorough adds (1,4070),(3,5000)), 0..1 ancillary chunks before iCCP; unterminated 80-byte name",
-				"inflate": "stubbed: asserted are the bytes handed to inflate and that its output is returned untouched; 'any deflate level' is outside the claim",
+				"png_large": "inflate output of 65537 and 1 MiB+1 bytes (thorough: 3 MiB), concrete content", "inflate": "stubbed: asserted are the bytes handed to inflate and that its output is returned untouched; 'any deflate level' is outside the claim",
 				"outside": "more than 4 symbolically ordered chunks, 65519-byte payloads and 255 chunks, multi-MiB profiles",
 			}
 		},
 		Runs: func(tier string, seed int64) []*Run {
-			jn, ws, ps := int64(3), int64(4), int64(4)
+			jn, ws, ps, bs := int64(3), int64(4), int64(4), int64(2)
 			if tier == "thorough" {
-				jn, ws, ps = 4, 6, 6
+				jn, ws, ps, bs = 4, 6, 6, 3
 			}
 			return []*Run{
 				{H: sym.Harness{Pkg: "meta/jpegmeta", Func: "VerifHarness_C06_JPEG", SetGlobals: map[string]int64{"verifC06MaxChunks": jn}, Workers: 14}, ExpectReach: []string{"jpeg-icc-valid", "jpeg-icc-damaged"}, SamplePaths: 6},
@@ -27,6 +27,7 @@ func init() {
 				{H: sym.Harness{Pkg: "meta/webpmeta", Func: "VerifHarness_C06_WebP", SetGlobals: map[string]int64{"verifC06Sizes": ws}}, ExpectReach: []string{"webp-noflag", "webp-iccp", "webp-flag-nochunk"}, SamplePaths: 4},
 				{H: sym.Harness{Pkg: "meta/pngmeta", Func: "VerifHarness_C06_PNG", SetGlobals: map[string]int64{"verifC06Shapes": ps}}, ExpectReach: []string{"png-iccp-ok", "png-iccp-corrupt"}, SamplePaths: 4},
 				{H: sym.Harness{Pkg: "meta/pngmeta", Func: "VerifHarness_C06_PNG_LongName"}, ExpectReach: []string{"png-longname"}, SamplePaths: 1},
+				{H: sym.Harness{Pkg: "meta/pngmeta", Func: "VerifHarness_C06_PNG_Large", SetGlobals: map[string]int64{"verifC06BigSizes": bs}}, ExpectReach: []string{"png-iccp-large"}, SamplePaths: 1},
 			}
 		},
 	})
